@@ -179,11 +179,22 @@ def tokErr (t : String) : Option String :=
   | "err" :: c :: _ => some c
   | _ => none
 
+/-- no fake success: where the specification (new decoders on the sequence's bytes — for which `C03_no_fake_success`
+is proved) demands an error of `Decode` / `Discard`, the implementation must not answer `ok` -/
+def fakeSuccess (l : Line) (toks : List String) : Option Nat :=
+  let spec := specRun (Spec.fresh l.o (l.streams.headD [])) l.ops
+  (((l.ops.zip spec).zip toks).zipIdx.find? (fun (((op, sp), t), _) =>
+    match op, sp with
+    | .decode, some (.err _, _) | .decodeCtx _, some (.err _, _) | .discard, some (.err _, _) => t.startsWith "ok"
+    | _, _ => false)).map (·.2)
+
 def propC03 (l : Line) (impl : String) : String :=
   let toks := impl.splitOn " "
-  if toks.any (fun t => t == "panic" || t.startsWith "panic(") then "fail:panic"
-  else if toks.contains "hang" then "fail:hang"
+  let heads := toks.map fun t => (t.splitOn "/").headD ""
+  if heads.any (fun t => t == "panic" || t.startsWith "panic(") then "fail:panic"
+  else if heads.contains "hang" then "fail:hang"
   else if toks.length != l.ops.length then "fail:answer-count"
+  else if let some i := fakeSuccess l toks then s!"fail:fake-success:op{i}"
   else Id.run do
     let mut sticky : Option String := none
     for (op, t) in l.ops.zip toks do
